@@ -10,6 +10,7 @@ from __future__ import annotations
 
 import copy
 import json
+import os
 from functools import lru_cache
 
 from .. import env, model, render, vocab
@@ -253,7 +254,7 @@ def machine(acc: Acc, tier, shard, nshards):
     runs = max(1, cfg["machine_runs"] // nshards)
     W = env.Workers.get()
     ents = [e for e in entries() if e[4] is not None]
-    VERS = [None, 4.0, 5.0, 5.4, 5.6, 6.0, 6.2, 6.4, 7.0, 7.6, 8.0, 8.2, 8.4, 99.0]
+    VERS = [None, 3.8, 4.0, 4.8, 5.0, 5.2, 5.4, 5.6, 6.0, 6.2, 6.4, 7.0, 7.2, 7.6, 8.0, 8.2, 8.4, 99.0]
     NAMES = ["map", "layer", "class", "style", "label", "symbol", "web", "scalebar"]
     fresh_cache = {}
     state = {"fail": None}
@@ -278,6 +279,19 @@ def machine(acc: Acc, tier, shard, nshards):
             state["fail"] = (msg, list(self.hist))
             raise AssertionError(msg)
 
+        def _call(self, what, fn):
+            """an exception escaping from the validator is an outcome to report, not a harness error"""
+            try:
+                return fn()
+            except AssertionError:
+                raise
+            except Exception as e:
+                import traceback
+
+                if any(os.sep + "mappyfile" + os.sep in f.filename for f in traceback.extract_tb(e.__traceback__)):
+                    self._fail(f"{what} raised {type(e).__name__}: {e!s:.100}")
+                raise
+
         @rule(e=st.sampled_from(range(len(ents))), v=st.sampled_from(VERS), which=st.sampled_from(["object", "module"]))
         def validate(self, e, v, which):
             t, k, ai, meta, rep = ents[e]
@@ -289,10 +303,11 @@ def machine(acc: Acc, tier, shard, nshards):
             self.hist.append(["validate", which, f"{t}.{k}", v, root])
             self.versions.add(v)
             if which == "module" and root == "map":
-                got = mappyfile.validate(d, version=v)
+                got = self._call(f"mappyfile.validate(version={v})", lambda: mappyfile.validate(d, version=v))
             else:
-                got = self.V.validate(d, schema_name=root, version=v)
-            exp = fresh_result("validate", (text, v, root), lambda F: F.validate(W.loads(text), schema_name=root, version=v))
+                got = self._call(f"validate({t}.{k}, version={v}, schema={root})", lambda: self.V.validate(d, schema_name=root, version=v))
+            exp = self._call(f"validate on a fresh Validator (version={v}, schema={root})",
+                             lambda: fresh_result("validate", (text, v, root), lambda F: F.validate(W.loads(text), schema_name=root, version=v)))
             if canon(got) != canon(exp):
                 self._fail(f"validate({t}.{k}, version={v}, schema={root}) after history differs from a fresh Validator: {message_names(got)} vs {message_names(exp)}")
 
@@ -300,16 +315,17 @@ def machine(acc: Acc, tier, shard, nshards):
         def versioned_schema(self, v, name):
             self.hist.append(["get_versioned_schema", v, name])
             self.versions.add(v)
-            got = canon(self.V.get_versioned_schema(v, name))
-            exp = fresh_result("versioned", (v, name), lambda F: canon(F.get_versioned_schema(v, name)))
+            got = self._call(f"get_versioned_schema({v}, {name!r})", lambda: canon(self.V.get_versioned_schema(v, name)))
+            exp = self._call(f"get_versioned_schema({v}, {name!r}) on a fresh Validator", lambda: fresh_result("versioned", (v, name), lambda F: canon(F.get_versioned_schema(v, name))))
             if got != exp:
                 self._fail(f"get_versioned_schema({v}, {name!r}) after history differs from a fresh Validator")
 
         @rule(v=st.sampled_from(VERS), name=st.sampled_from(NAMES))
         def expanded_schema(self, v, name):
             self.hist.append(["get_expanded_schema", name, v])
-            got = canon(self.V.get_expanded_schema(name, v))
-            exp = fresh_result("expanded", (name, v, tuple(sorted(str(x) for x in [])), "fresh"), lambda F: canon(F.get_expanded_schema(name, v)))
+            got = self._call(f"get_expanded_schema({name!r}, {v})", lambda: canon(self.V.get_expanded_schema(name, v)))
+            exp = self._call(f"get_expanded_schema({name!r}, {v}) on a fresh Validator",
+                             lambda: fresh_result("expanded", (name, v, tuple(sorted(str(x) for x in [])), "fresh"), lambda F: canon(F.get_expanded_schema(name, v))))
             # an expanded schema for a version that was already pruned on this object is the pruned one by design
             # (cache per version); only the version-less schema must never change
             if v is None and got != exp:
